@@ -461,6 +461,27 @@ theorem h1_error_reply_wellformed (canWrite started : Bool) (code : Nat) (m b : 
         have hd := errorStatus_domain code s hs
         exact ⟨s, rfl, hd.1, hd.2, trivial, page_wellformed s m hd, trivial⟩
 
+/-- **C12 (declares HTML, stated on the response itself).** Whatever the reference reader extracts from
+    `make_error_response(status, m)` declares `Content-Type: text/html` and `Connection: close`, has that status, and
+    its body is the page. -/
+theorem make_error_response_declares_html (s : Nat) (m : Bytes) (hs : 100 ≤ s ∧ s ≤ 999) (r : Resp)
+    (h : refParse (makeErrorResponse s m) = some r) :
+    r.headers.lookup nCT = some vHtml ∧ r.headers.lookup nConn = some vClose ∧ r.body = formatError s m ∧ r.status = s := by
+  rw [page_wellformed s m hs] at h
+  injection h with h
+  subst h
+  exact ⟨(h1_declares_html s _).1, (h1_declares_html s _).2, by simp only [expected], by simp only [expected]⟩
+
+/-- the same for whatever `Http1Server.send(ResponseProtocolError)` writes: it parses, and declares `text/html` -/
+theorem h1_error_reply_declares_html (canWrite started : Bool) (code : Nat) (m b : Bytes)
+    (h : (h1ErrorReply canWrite started code m).1 = some b) :
+    ∃ r, refParse b = some r ∧ r.headers.lookup nCT = some vHtml := by
+  obtain ⟨s, _, _, _, _, hp, _⟩ := h1_error_reply_wellformed canWrite started code m b h
+  exact ⟨_, hp, (h1_declares_html s _).1⟩
+
+example : ∃ r, refParse (makeErrorResponse 413 [0x26]) = some r ∧ r.headers.lookup nCT = some vHtml :=
+  ⟨_, page_wellformed 413 [0x26] (by decide), (h1_declares_html 413 _).1⟩
+
 /-- **C12 (no page into a started or upgraded exchange).** An error page is written only when NO response head has
     gone out to this client yet: never after a `101 Switching Protocols` (the connection speaks another protocol),
     never after a final head (2xx–5xx, with or without part of its body) — there the error path only closes — and,
